@@ -616,7 +616,124 @@ def _subst_len(cond, value):
     return e
 
 
+def app_histories(depth):
+    """sequences of controller-side operations over two applications (unit modules of 2 and 1 qubits): register, stop, a subroutine that
+    allocates / frees a virtual qubit, a subroutine that writes registers, an array and returns them.  Only operations that make sense in
+    the state reached are generated (no subroutine for an application that is not registered, no allocation of an allocated qubit)."""
+    out = []
+    sizes = {0: 2, 1: 1}
+
+    def rec(seq, reg, alloc):
+        if len(seq) == depth:
+            out.append(tuple(seq))
+            return
+        grown = False
+        for a in (0, 1):
+            if a not in reg:
+                grown = True
+                rec(seq + [("init", a)], reg | {a}, alloc)
+                continue
+            grown = True
+            rec(seq + [("stop", a)], reg - {a}, frozenset(x for x in alloc if x[0] != a))
+            for q in range(sizes[a]):
+                if (a, q) in alloc:
+                    rec(seq + [("free", a, q)], reg, alloc - {(a, q)})
+                else:
+                    rec(seq + [("alloc", a, q)], reg, alloc | {(a, q)})
+            if not seq or seq[-1] != ("write", a):
+                rec(seq + [("write", a)], reg, alloc)
+        if not grown and seq:
+            out.append(tuple(seq))
+    rec([], frozenset(), frozenset())
+    return sorted(set(out))
+
+
+def _run_app_history(ctx, seq):
+    """-> None, or (construct, what went wrong)"""
+    from .. import session as S
+    w = S.ExecutorWorld(ctx, S.scenario(max_steps=400000), record_gates=True)
+    sizes = {0: 2, 1: 1}
+    H = "# NETQASM 1.0\n# APPID {a}\n"
+    writes = {0: 0, 1: 0}
+    done = []
+
+    def snapshot(a):
+        return {"registers": w.registers(a), "arrays": w.arrays(a), "unit module": w.unit_module(a),
+                "shared": sorted((str(k_), str(v_)) for k_, v_ in S.shared_memory_view(w, a).items())}
+
+    def present(a):
+        ex = w.ex.fields
+        return sorted(n_ for n_ in ("_registers", "_app_arrays", "_shared_memories", "_qubit_unit_modules") if a in (ex.get(n_) or {}))
+
+    registered = set()
+    for op in seq:
+        done.append(op)
+        told = ", ".join(o_[0] + "(" + ", ".join(str(x_) for x_ in o_[1:]) + ")" for o_ in done)
+        a = op[1]
+        others_before = {b: snapshot(b) for b in registered if b != a}
+        if op[0] == "init":
+            r_ = w.call("init_new_application", app_id=a, max_qubits=sizes[a])
+            registered.add(a)
+            if r_[0] == "ok" and (w.registers(a) or w.arrays(a) or any(v_ is not None for v_ in (w.unit_module(a) or []))):
+                return ("stop-releases-everything:the-id-can-be-registered-again", f"{told}: application {a} starts with registers {w.registers(a)}, arrays {w.arrays(a)}, unit module {w.unit_module(a)} - left over from its earlier life")
+        elif op[0] == "stop":
+            r_ = w.call("stop_application", app_id=a)
+            registered.discard(a)
+            writes[a] = 0
+            if r_[0] == "ok" and present(a):
+                return ("stop-releases-everything:the-id-can-be-registered-again", f"{told}: after stop_application({a}) the executor still holds {present(a)} for it")
+        else:
+            if op[0] == "alloc":
+                text = H.format(a=a) + f"set Q0 {op[2]}\nqalloc Q0\ninit Q0\n"
+            elif op[0] == "free":
+                text = H.format(a=a) + f"set Q0 {op[2]}\nqfree Q0\n"
+            else:
+                writes[a] += 1
+                v = 10 * (a + 1) + writes[a]
+                text = H.format(a=a) + f"set R0 2\narray R0 @0\nset R1 {v}\nstore R1 @0[1]\nset C3 {v + 1}\nret_reg C3\nret_arr @0\n"
+            r_ = w.run(w.parse(text))
+        if r_[0] != "ok":
+            return ("every-legal-operation-is-carried-out", f"{told}: the last operation {r_[1] if len(r_) > 1 else r_}: {str(r_[2])[:140] if len(r_) > 2 else ''!r}")
+        # isolation: nothing of another application moved
+        for b, before in others_before.items():
+            if b in registered and snapshot(b) != before:
+                now = snapshot(b)
+                diff = {k_: (before[k_], now[k_]) for k_ in before if before[k_] != now[k_]}
+                return ("applications-are-isolated", f"{told}: the last operation (application {a}) changed application {b}: {diff}")
+        # the physical map is injective and the in-use set is exactly what is mapped
+        mapped = [v_ for b in sorted(registered) for v_ in (w.unit_module(b) or []) if v_ is not None]
+        if len(set(mapped)) != len(mapped):
+            return ("no-two-virtual-qubits-share-a-physical-qubit", f"{told}: unit modules {[(b, w.unit_module(b)) for b in sorted(registered)]}")
+        if sorted(mapped) != sorted(w.used()):
+            return ("in-use-set-is-exactly-the-mapped-set", f"{told}: mapped physical qubits {sorted(mapped)}, marked in use {sorted(w.used())}")
+    return None
+
+
+def check_app_histories(ctx, rule="C13.H"):
+    """C13 as stated, on bounded histories: the repository's Executor (own constructor) driven by the checker's interpreter through every
+    sequence of register / stop / allocate / free / write-and-return over two applications up to the depth bound.  After every step: the
+    legal operation was carried out; no other application's registers, arrays, unit module or shared memory changed; no physical qubit is
+    mapped twice; the in-use set is exactly the mapped set; a stopped application leaves nothing behind and starts clean when registered again."""
+    from .. import session as S
+    jobs = app_histories(5 if ctx.tier == "thorough" and not getattr(ctx, "_in_selftest", False) else 4)
+    bad = {}
+    try:
+        for seq, res in zip(jobs, S.parallel_map(ctx, _run_app_history, jobs, jobs=14)):
+            if res is not None:
+                bad.setdefault(res[0], res[1])
+    except AnalysisError as ex_:
+        ctx.error(rule, f"the executor cannot be driven through the application histories: {ex_}")
+        return
+    ctx.anchor(rule, "application histories executed", len(jobs), 150)
+    ex = ctx.repo.get_class(EXE, "Executor")
+    loc = ex.loc(ex.methods["stop_application"]) if "stop_application" in ex.methods else None
+    for key in ("every-legal-operation-is-carried-out", "applications-are-isolated", "no-two-virtual-qubits-share-a-physical-qubit", "in-use-set-is-exactly-the-mapped-set",
+                "stop-releases-everything:the-id-can-be-registered-again"):
+        ctx.check(rule, key, key not in bad, bad.get(key, ""), loc, sample={"histories": len(jobs)})
+
+
 def run(ctx):
+    check_app_histories(ctx)
     check_lifecycle(ctx)
     check_used_set(ctx)
     check_fault_atomicity(ctx, "C13.U")
